@@ -225,7 +225,12 @@ def m_into(I, ctx, callee, args, crate):
             ("WasmQuery", "QueryRequest"): "Wasm", ("BankQuery", "QueryRequest"): "Bank", ("IbcQuery", "QueryRequest"): "Ibc",
             ("StakingQuery", "QueryRequest"): "Staking"}
     if (s_src, s_dst) in wrap: return EnumV(s_dst, wrap[(s_src, s_dst)], (x,))
-    if s_dst == "Option" and s_src != "Option": return Some(x)
+    if s_dst == "Option" and s_src != "Option":
+        if s_src.startswith("impl") or s_src in ("T", "U", "S", "A", "B"):
+            # generic source (`impl Into<Option<u64>>`): the instantiation is only visible in the value — an Option converts to itself
+            v = I.deref(ctx, x) if isinstance(x, Ref) else x
+            if (isinstance(v, EnumV) and v.ty == "Option") or (isinstance(v, SymEnum) and simple_name(v.ty) == "Option"): return x
+        return Some(x)
     if (s_src, s_dst) == ("Timestamp", "IbcTimeout"):
         return Struct("IbcTimeout", [NONE, Some(x)], ["block", "timestamp"])
     if (s_src, s_dst) == ("IbcTimeoutBlock", "IbcTimeout"):
